@@ -10,7 +10,11 @@ import (
 
 // e2eClientScenario: the real ClientPeerIDAuth.AuthenticatedDo (no stored token)
 // against a scripted server that answers over HTTP; one kind-5 case.
-func (h *hx) e2eClientScenario(A, B srvCfg, c0, c1 uint64) {
+func (h *hx) e2eClientScenario(A, B srvCfg, c0, c1 uint64) { h.e2eClientScenarioK(A, B, c0, c1, -1) }
+
+// lateKey >= 0: a malicious server that authenticates honestly with its own key and
+// then adds public-key=<lateKey> to every later (never signature-checked) answer.
+func (h *hx) e2eClientScenarioK(A, B srvCfg, c0, c1 uint64, lateKey int64) {
 	if VerifE2EClient == nil {
 		return
 	}
@@ -32,7 +36,7 @@ func (h *hx) e2eClientScenario(A, B srvCfg, c0, c1 uint64) {
 	var reqs [][]sym.OutTerm
 	var own, older sym.Term = sym.Empty(), sym.Atom(h.nextChallenge())
 	var lastItems []sym.Item
-	honest := r.Chance(2, 5) // a server that follows the protocol
+	honest := r.Chance(2, 5) || lateKey >= 0 // a server that follows the protocol (so far)
 	n := 0
 	respond := func(reqHdr string) (int, string, string) {
 		n++
@@ -82,6 +86,10 @@ func (h *hx) e2eClientScenario(A, B srvCfg, c0, c1 uint64) {
 			}
 			if honest || !r.Chance(1, 5) {
 				items = append(items, sym.Item{Name: "bearer", Val: h.pv(h.w.NewGarbage())})
+			}
+			if lateKey >= 0 {
+				items = append(items, sym.Item{Name: "public-key", Val: h.pv(sym.Pub(uint64(lateKey)))})
+				h.out.Cover("e2e_client_late_public_key")
 			}
 		}
 		hdr := stdHeader(items)
